@@ -57,6 +57,20 @@ def check_unquote(comp, s, out, again=None):
             bad.append("delimiter-count:" + d)
     if again is not None and again != out:
         bad.append("not-idempotent")
+    if comp == "auth":
+        # what comes out is meant to be written back between '//' and '@': the standard parser must still accept it there
+        # (it refuses a netloc holding a character whose NFKC form contains a netloc delimiter)
+        from urllib.parse import urlsplit as _us
+        try:
+            _us("http://%s@h.example/" % s)
+            acceptable_in = True
+        except ValueError:
+            acceptable_in = False  # (a raw look-alike or bracket in the INPUT: not something a parsed url can hold)
+        if acceptable_in:
+            try:
+                _us("http://%s@h.example/" % out)
+            except ValueError:
+                bad.append("refused-in-a-netloc-by-the-standard-parser")
     return bad
 
 
